@@ -14,6 +14,7 @@ LEVEL = 'exploration'
 CASE_TIMEOUT = 120
 BATCH_SIZE = {'quick': 4, 'thorough': 16}
 REQUIRED_COUNTERS = ['drop_pairs', 'flatten_pairs', 'absent_level_pairs',
+                     'runs_with_a_per_level_factor_table',
                      'level_records_compared_bitwise']
 RULE = ('case = one generated world mapped four ways: (A) drop_level / '
         'flatten via the configuration, (B) no reduction on a reference '
@@ -58,6 +59,8 @@ def gen_cases(tier, seed):
         # ('type', 'type_fine', ...)
         if i % 3 == 0:
             c['level_pool'] = 3
+        if i % 3 == 1:
+            c['factor_lookup_full'] = True
         cases.append(c)
     return cases
 
@@ -85,6 +88,16 @@ def run_case(spec, work):
     w = mapworld.build_world(spec, work)
     model = w.model
     counters, viol = {}, []
+    if spec.get('factor_lookup_full'):
+        # an explicit per-level bootstrap factor for every level of the
+        # full taxonomy, all different: the level that is dropped has its
+        # own entry, which must simply go unused
+        fs = [0.8, 0.9, 0.25, 0.5, 0.7, 0.35, 0.6]
+        pairs = [['None', fs[0]]] + [
+            [lv, fs[1 + k % 6]] for k, lv in enumerate(model.hierarchy[:-1])]
+        w.config['type_assignment']['bootstrap_factor_lookup'] = pairs
+        w.config['type_assignment']['bootstrap_factor'] = None
+        counters['runs_with_a_per_level_factor_table'] = 1
     rng = np.random.default_rng(spec['seed'] + 17)
     nontrivial = False
 
